@@ -88,7 +88,9 @@ func (m *blueGreenReleaseManager) runCanary(c *RolloutContext) error {
 		tr := newTrafficRoutingContext(c)
 		if currentStep.Traffic != nil || len(currentStep.Matches) > 0 {
 			//TODO - consider istio subsets
-			if blueGreenStatus.CurrentStepIndex == 1 {
+			// with disableGenerateCanaryService there is no canary Service and the stable Service
+			// is never patched: PatchStableService only answers "retry" then, forever
+			if blueGreenStatus.CurrentStepIndex == 1 && !tr.DisableGenerateCanaryService {
 				klog.Infof("Before the first batch, rollout(%s/%s) patch stable Service", c.Rollout.Namespace, c.Rollout.Name)
 				retry, err := m.trafficRoutingManager.PatchStableService(tr)
 				if err != nil {
